@@ -428,7 +428,15 @@ def accept_oracle(case, impl):
         if a.get("s") and word in (b"", b"-"):
             spell += [b"-" + c.encode() for c in a.get("s", []) + a.get("vsa", [])]
         if any(sp.startswith(word) for sp in spell) and (b"arg::" + a["id"]) not in seen_ids:
-            return "visible option %r has a spelling extending %r but is not represented" % (a["id"], word)
+            # recorded finding (family alias-without-primary, shared with C16): a visible long alias of an option that has
+            # no long name (resp. a visible short alias without a short) is a key for the parser but the engine, like the
+            # ahead-of-time generators, goes through Arg::get_long_and_visible_aliases, which returns nothing without a primary
+            primary = [b"--" + x for x in a.get("l", [])] + ([b"-" + c.encode() for c in a.get("s", [])] if word in (b"", b"-") else [])
+            tag = "" if any(sp.startswith(word) for sp in primary) or (a.get("l") and a.get("s")) \
+                or any(sp.startswith(word) for sp in ([b"--" + x for x in a.get("va", [])] if a.get("l") else [])
+                       + ([b"-" + c.encode() for c in a.get("vsa", [])] if a.get("s") and word in (b"", b"-") else [])) \
+                else " [alias-without-primary]"
+            return "visible option %r has a spelling extending %r but is not represented%s" % (a["id"], word, tag)
     for s in level["subs"]:
         if s["hidden"]:
             continue
@@ -832,4 +840,6 @@ def streams(tier, rng):
 
 
 def classify_known(stream, case, impl, failure):
+    if isinstance(failure, str) and failure.endswith("[alias-without-primary]"):
+        return "C18-alias-without-primary"
     return None
